@@ -513,3 +513,127 @@ pub fn gen_c10(rng: &mut Rng, d: &mut Dist) -> Vec<String> {
     }
     out
 }
+
+pub fn error_code(rng: &mut Rng, d: &mut Dist) -> i64 {
+    let c = match rng.below(10) {
+        0..=5 => rng.range(-1, 35),
+        6 | 7 => *rng.pick(&[-32768i64, -2, 36, 127, 128, 255, 256, 32767]),
+        _ => rng.range(-32768, 32767),
+    };
+    bump(d, if (1..=35).contains(&c) { "code-documented" } else if c == 0 { "code-0" } else { "code-unmapped" });
+    c
+}
+
+/// C11: every response kind with an error code injected on one partition at a random position among healthy ones.
+pub fn gen_c11(rng: &mut Rng, d: &mut Dist) -> Vec<String> {
+    let cl = Cluster::random(rng, 4, false);
+    let mut out = cl.setup_lines();
+    for t in &cl.topics {
+        for p in 0..t.leaders.len() {
+            out.push(format!("APPEND {} {} plain 0 ~ aa 1 ~ bb", h(&t.name), p));
+        }
+    }
+    out.push("DATAWITHERROR 1".into());
+    match rng.below(3) {
+        0 => {}
+        1 => out.push("ORDER rev".into()),
+        _ => out.push(format!("ORDER rot {}", 1 + rng.below(3))),
+    }
+    let storage = *rng.pick(&["zk", "kafka"]);
+    let kind = rng.below(8);
+    let victim_t = rng.pick(&cl.topics);
+    let victim_p = rng.below(victim_t.leaders.len() as u64);
+    let code = error_code(rng, d);
+    let all_topics: Vec<String> = cl.topics.iter().map(|t| h(&t.name)).collect();
+    let fault = |api: i64| format!("FAULT {} {} {} {} 1", api, h(&victim_t.name), victim_p, code);
+    if kind < 6 {
+        out.push(format!("OP client_new {}", cl.bootstrap()));
+        out.push(format!("OP c set storage {}", storage));
+        out.push("OP c set retry_backoff_ms 0".into());
+        out.push("OP c set retry_max 1".into());
+        out.push("OP c load_metadata_all".into());
+    }
+    match kind {
+        0 => {
+            bump(d, "api-produce");
+            out.push(fault(0));
+            let mut line = String::from("OP c produce 1 1 0");
+            let mut i = 0;
+            for t in &cl.topics {
+                for p in 0..t.leaders.len() {
+                    i += 1;
+                    line.push_str(&format!(" {} {} ~ {:02x}", h(&t.name), p, i));
+                }
+            }
+            out.push(line);
+        }
+        1 => {
+            bump(d, "api-fetch");
+            out.push(fault(1));
+            let mut line = String::from("OP c fetch_messages");
+            for t in &cl.topics {
+                for p in 0..t.leaders.len() {
+                    line.push_str(&format!(" {} {} 0 -1", h(&t.name), p));
+                }
+            }
+            out.push(line);
+        }
+        2 => {
+            bump(d, "api-offsets");
+            out.push(fault(2));
+            out.push(format!("OP c fetch_offsets {} {}", rng.pick(&[-1i64, -2]), all_topics.join(" ")));
+        }
+        3 => {
+            bump(d, "api-list-offsets");
+            out.push(fault(2));
+            out.push(format!("OP c list_offsets {} {}", rng.pick(&[-1i64, -2]), all_topics.join(" ")));
+        }
+        4 => {
+            bump(d, "api-commit");
+            if rng.chance(1, 4) {
+                out.push(format!("SCRIPT 10 {}", code));
+                bump(d, "api-coordinator");
+            } else {
+                out.push(fault(8));
+            }
+            let mut line = format!("OP c commit_offsets {}", h("grp"));
+            for t in &cl.topics {
+                for p in 0..t.leaders.len() {
+                    line.push_str(&format!(" {} {} {}", h(&t.name), p, 1));
+                }
+            }
+            out.push(line);
+        }
+        5 => {
+            bump(d, "api-group-fetch");
+            if rng.chance(1, 4) {
+                out.push(format!("SCRIPT 10 {}", code));
+                bump(d, "api-coordinator");
+            } else {
+                out.push(fault(9));
+            }
+            let mut line = format!("OP c fetch_group_offsets {}", h("grp"));
+            for t in &cl.topics {
+                for p in 0..t.leaders.len() {
+                    line.push_str(&format!(" {} {}", h(&t.name), p));
+                }
+            }
+            out.push(line);
+        }
+        6 => {
+            bump(d, "api-poll");
+            let ts: Vec<String> = cl.topics.iter().map(|t| format!("topic={}", h(&t.name))).collect();
+            out.push(format!("OP consumer_create hosts={} fallback=earliest {}", cl.bootstrap(), ts.join(" ")));
+            out.push(fault(1));
+            out.push("OP poll".into());
+            out.push("OP poll".into());
+        }
+        _ => {
+            bump(d, "api-send");
+            out.push(format!("OP producer_create hosts={}", cl.bootstrap()));
+            out.push(fault(0));
+            out.push(format!("OP send {} {} - aa", h(&victim_t.name), victim_p));
+        }
+    }
+    out
+}
